@@ -408,8 +408,12 @@ def _handle_fn_body(body: list[ast.stmt], ctx: Context) -> sympy.Expr | None:
                     ctx.modules[name] = el
                 else:
                     _LOGGER.debug("Skipping import %s", node)
-        else:
+        elif isinstance(node, (ast.Pass, ast.Expr, ast.Assert)):
+            # No influence on the returned value where the function is defined
             _LOGGER.debug("Skipping node of type %s", type(node))
+        else:
+            msg = f"Statement type {type(node).__name__} not implemented"
+            raise NotImplementedError(msg)
 
     # If no return was found but we have assignments, return the last assigned variable
     for node in reversed(body):
